@@ -29,11 +29,11 @@ suite=$(grep -E "^test result" /tmp/suite-$$.log | tr '\n' ';')
 newfail=$(grep -E "^test .* \.\.\. FAILED" /tmp/suite-$$.log | grep -v test_side_metadata_sanity_verify_no_overlap_contiguous | grep -v -E "${DEMO_PAT:-__no_demo_pattern__}" | head -5)
 echo "$suite"; echo "unexpected failures: [$newfail]"
 echo "== demo with change (expect failure)"
-RUSTFLAGS="${DEMO_RUSTFLAGS:-}" cargo test --offline $demo > /tmp/demo-with-$$.log 2>&1; with=$?
+env ${DEMO_ENV:-} RUSTFLAGS="${DEMO_RUSTFLAGS:-}" cargo test --offline $demo > /tmp/demo-with-$$.log 2>&1; with=$?
 echo "exit $with"
 echo "== demo without change (expect pass)"
 git apply -R $out/patch.diff
-RUSTFLAGS="${DEMO_RUSTFLAGS:-}" cargo test --offline $demo > /tmp/demo-without-$$.log 2>&1; without=$?
+env ${DEMO_ENV:-} RUSTFLAGS="${DEMO_RUSTFLAGS:-}" cargo test --offline $demo > /tmp/demo-without-$$.log 2>&1; without=$?
 echo "exit $without"
 git apply $out/patch.diff
 python3 - "$out" "$sid" "$prop" "$demo" "$suite" "$with" "$without" "$newfail" <<'PY'
